@@ -33,6 +33,32 @@ CLAIMS = {
         "as pulses (both accepted). Bounded depth/alphabet.",
         "DESIGN.md §3 C03, Appendix A",
     ),
+    "C07": (
+        "model_checking",
+        "explicit-state BFS over call histories with an independent phase accumulator + RefSched phase-reference equality; "
+        "exhaustive Ramsey grid on the emulator",
+        "All histories up to depth 3-5 over 14-21 op alphabets (shifts of 1, -0.5, 7 > 2pi, 2pi, 0 on atom subsets and bases, "
+        "pulses with post-phase-shifts of either sign on global/local channels, retargets, EOM pulses) on 5 worlds (two channels "
+        "on one basis, two bases, DMM configured before the first channel, two globals): per transition every (basis, atom) "
+        "reference must change by exactly the op's increment (mod 2pi) and no other reference may move; every new pulse carries "
+        "programmed phase + reference and starts after the latest shift of its targets. Ramsey pairs (two pi/2 pulses around a "
+        "shift phi) are emulated for 29 phi values x 5 channel kinds x {phase_shift, post_phase_shift}: P = cos^2(phi/2) +- 1e-4.",
+        "EOM drift corrections are compared with the documented rule (RefSched); their physical correctness is C15's clause. "
+        "Bounded depth/alphabet; phi grid.",
+        "DESIGN.md §3 C07",
+    ),
+    "C10": (
+        "model_checking",
+        "explicit-state BFS over call histories on a catalog product of channel timing parameters; model-free gap monitors + "
+        "RefSched equality",
+        "All histories up to depth 3-5 over 10-11 op alphabets on corner configurations and on the product {phase-jump time "
+        "derived/0/42} x {bandwidth none/8/30 MHz} x {clock 1/4} x {min duration 1/16} x {retarget interval 0/220} x {fixed "
+        "retarget 0/30} (144 configurations; quick covers a seed-rotated twelfth plus corners, thorough all): phase-jump gap >= "
+        "phase_jump_time + fall (>= 2 x EOM rise in EOM mode) unless no-delay, retarget interval / fixed time / ramp-down / "
+        "same-target no-op on every state, exact gaps pinned by RefSched.",
+        "Fall times are trusted inputs (C14); in EOM mode only the weakest reading is enforced model-free. Bounded depth/alphabet.",
+        "DESIGN.md §3 C10",
+    ),
 }
 
 PENDING_REASON = "check not built yet in this round (design in DESIGN.md §3); nothing is claimed for it"
